@@ -2,6 +2,7 @@ package ledger
 
 import (
 	"bytes"
+	"crypto/sha256"
 	"encoding/binary"
 	"errors"
 	"fmt"
@@ -112,6 +113,11 @@ func VerifyMerkle(block *pb.InternalBlock) error {
 	blockid := block.Blockid
 	if int(block.TxCount) != len(block.Transactions) {
 		return fmt.Errorf("tx count is wrong, block id:%s, tx count:%d, transactions:%d", utils.F(blockid), block.TxCount, len(block.Transactions))
+	}
+	for _, tx := range block.Transactions {
+		if len(tx.GetTxid()) != sha256.Size {
+			return fmt.Errorf("txid is not a hash, block id:%s, txid:%s", utils.F(blockid), utils.F(tx.GetTxid()))
+		}
 	}
 	merkleTree := MakeMerkleTree(block.Transactions)
 	if len(merkleTree) > 0 {
